@@ -2,7 +2,11 @@
 
 package jd
 
-import "strconv"
+import (
+	"sort"
+	"strconv"
+	"strings"
+)
 
 // Deterministic pseudo-random document pairs for the bounded stand-ins: pair k is a random
 // document a (arrays up to length 7 with repeated elements, nesting up to depth 4, keys a..c)
@@ -424,25 +428,26 @@ func verifScaleB() []JsonNode { _, b := verifScalePairs(); return b }
 // verifScale: the library-level statements (C01 round trip, C02 text, C09 / C11 renderings,
 // C16 YAML) on one large pair. Returns "" or the name of the statement that fails.
 func verifScale(a, b JsonNode) string {
+	var bad []string
 	if !verifPatchGives(a, a.Diff(b), b, nil) {
-		return "C01: diff then patch"
+		bad = append(bad, "C01: diff then patch")
 	}
 	// (no colour rendering here: its rune-level comparison of two 70 kB strings is quadratic)
 	d := a.Diff(b)
 	d2, err := ReadDiffString(d.Render())
 	if err != nil || d2.Render() != d.Render() || !verifPatchGives(a, d2, b, nil) {
-		return "C02: text round trip"
+		bad = append(bad, "C02: text round trip")
 	}
 	if verifPointerExpressible(a) && verifPointerExpressible(b) && !verifRenderPatchFaithful(a, b) {
-		return "C09: RFC 6902 rendering"
+		bad = append(bad, "C09: RFC 6902 rendering")
 	}
 	if verifNullFree(a) && verifNullFree(b) && !verifRenderMergeFaithful(a, b, []Option{MERGE}) {
-		return "C11: RFC 7386 rendering"
+		bad = append(bad, "C11: RFC 7386 rendering")
 	}
 	if !verifYamlJson(a) || !verifYamlJson(b) {
-		return "C16: YAML / JSON round trip"
+		bad = append(bad, "C16: YAML / JSON round trip")
 	}
-	return ""
+	return strings.Join(bad, "; ")
 }
 
 // verifScaleCLI (C14): verifCLICheck on a large pair (files, stdin, -o, -p).
@@ -599,43 +604,50 @@ func verifDeepSiblingB() []JsonNode { _, b := verifDeepSiblingPairs(); return b 
 // verifDeepSiblings (C01, C07, C11, C05): the round trip, real hunks, the RFC 7386 rendering and
 // "empty iff equal" far below the root.
 func verifDeepSiblings(a, b JsonNode) string {
+	bad := map[string]bool{}
 	for _, o := range [][]Option{nil, {SET}, {MERGE}} {
 		d := a.Diff(b, o...)
 		if !verifPatchGives(a, d, b, o) {
-			return "C01: diff then patch"
+			bad["C01: diff then patch"] = true
 		}
 		if len(a.Diff(a, o...)) != 0 || len(d) == 0 {
-			return "C05: empty iff equal"
+			bad["C05: empty iff equal"] = true
 		}
-		if !verifHunksReal(a, b, o) {
-			return "C07: a hunk restates something that did not change"
+		if !verifHunksReal(a, b, o) || !verifHunksReal(a, a, o) {
+			bad["C07: a hunk restates something that did not change"] = true
 		}
 	}
 	// each hunk says only what changed: nothing under "same" is mentioned
 	for _, e := range a.Diff(b) {
 		for _, pe := range e.Path {
 			if k, ok := pe.(PathKey); ok && string(k) == "same" {
-				return "C07: a hunk touches the unchanged sibling"
+				bad["C07: a hunk touches the unchanged sibling"] = true
 			}
 		}
 		if len(e.Path) < 30 {
-			return "C07: a hunk replaces a whole subtree instead of the changed member"
+			bad["C07: a hunk replaces a whole subtree instead of the changed member"] = true
 		}
 	}
 	if !verifRenderMergeFaithful(a, b, []Option{MERGE}) {
-		return "C11: RFC 7386 rendering"
+		bad["C11: RFC 7386 rendering"] = true
 	}
-	return ""
+	var out []string
+	for k := range bad {
+		out = append(out, k)
+	}
+	sort.Strings(out)
+	return strings.Join(out, "; ")
 }
 
 // verifNumberEdges (C01, C02, C05, C09, C11, C16): the library-level statements of verifScale plus
 // "empty iff equal" over documents that hold numbers at representation edges.
 func verifNumberEdges(a, b JsonNode) string {
+	bad := ""
 	if (len(a.Diff(b)) == 0) != a.Equals(b) || a.Equals(b) != specEq(a, b, nil) {
-		return "C05: empty iff equal"
+		bad = "C05: empty iff equal; "
 	}
-	if a.Equals(b) {
-		return ""
+	if specEq(a, b, nil) {
+		return bad
 	}
-	return verifScale(a, b)
+	return bad + verifScale(a, b)
 }
